@@ -84,6 +84,32 @@ func init() {
 		i.doc.AddEndnote(tok, "note")
 		return nil, 1, ""
 	})
+	// calls with arguments a library may refuse: when the call reports an error nothing may have been appended
+	// (wantParas -1); when it reports success it is an ordinary append
+	add("AddFootnote(text, blank note text)", func(i *c08Inst, tok string) (*document.Paragraph, int, string) {
+		if err := i.doc.AddFootnote(tok, "  "); err != nil {
+			return nil, -1, ""
+		}
+		return nil, 1, ""
+	})
+	add("AddEndnote(text, empty note text)", func(i *c08Inst, tok string) (*document.Paragraph, int, string) {
+		if err := i.doc.AddEndnote(tok, ""); err != nil {
+			return nil, -1, ""
+		}
+		return nil, 1, ""
+	})
+	add("AddImageFromData(format bmp)", func(i *c08Inst, tok string) (*document.Paragraph, int, string) {
+		if _, err := i.doc.AddImageFromData(pngBytes(2, 1, 7), "a.bmp", document.ImageFormat("bmp"), 2, 1, nil); err != nil {
+			return nil, -1, ""
+		}
+		return nil, 1, ""
+	})
+	add("AddTable(0 rows)", func(i *c08Inst, tok string) (*document.Paragraph, int, string) {
+		if _, err := i.doc.AddTable(&document.TableConfig{Rows: 0, Cols: 2, Width: 4000}); err != nil {
+			return nil, -1, ""
+		}
+		return nil, 0, "tbl"
+	})
 	add("AddMathFormula", func(i *c08Inst, tok string) (*document.Paragraph, int, string) {
 		i.doc.AddMathFormula("<m:r><m:t>"+tok+"</m:t></m:r>", true)
 		return nil, 0, "math"
@@ -268,6 +294,15 @@ func (i *c08Inst) Apply(op int) (string, []rep.Violation) {
 			viol = append(viol, i.viol("append-disturbed-existing", o.name, "before ["+i.dumpModel()+"] after ["+i.dumpImpl()+"]"))
 			i.resync()
 			return "disturbed", viol
+		}
+		if wantParas == -1 {
+			// the call reported failure
+			if len(newEls) != 0 {
+				viol = append(viol, i.viol("refused-call-changed-the-body", o.name, fmt.Sprintf("the call returned an error, yet %d element(s) were appended: before [%s] after [%s]", len(newEls), i.dumpModel(), i.dumpImpl())))
+				i.resync()
+				return "refused-not-atomic", viol
+			}
+			return "refused", viol
 		}
 		if len(newEls) == 0 {
 			viol = append(viol, i.viol("append-added-nothing", o.name, "no new element at the end"))
